@@ -264,6 +264,13 @@ func (i *Install) RunWithContext(ctx context.Context, chrt *chart.Chart, vals ma
 		interactWithRemote = true
 	}
 
+	// Check the values against the chart's schema(s) before anything, the CRDs
+	// included, is sent to the cluster. The result is discarded; the values are
+	// computed again below once the capabilities are known.
+	if _, err := chartutil.ToRenderValuesWithSchemaValidation(chrt, vals, chartutil.ReleaseOptions{}, nil, i.SkipSchemaValidation); err != nil {
+		return nil, err
+	}
+
 	// Pre-install anything in the crd/ directory. We do this before Helm
 	// contacts the upstream server and builds the capabilities object.
 	if crds := chrt.CRDObjects(); !i.ClientOnly && !i.SkipCRDs && len(crds) > 0 {
